@@ -287,14 +287,14 @@ func (v c15nv) dptr(i int) int64 {
 	}
 	return c15get48(v.b[8*i:])
 }
-func (v c15nv) ttag(i int) uint8   { return v.b[8*i+7] }
-func (v c15nv) cptr(i int) int64   { return c15get48(v.b[8*v.a+8+8*i:]) }
-func (v c15nv) stag(i int) uint8   { return v.b[8*v.a+8+8*i+7] }
-func (v c15nv) cptrmax() int64     { return c15get48(v.b[16*v.a+8:]) }
-func (v c15nv) dptrmax() int64     { return c15get48(v.b[8*v.a:]) }
-func (v c15nv) version() uint8     { return v.b[16*v.a+14] }
-func (v c15nv) codecByte() uint8   { return v.b[8*v.a+7] }
-func (v c15nv) dsize(i int) int64  { return v.dptr(i+1) - v.dptr(i) }
+func (v c15nv) ttag(i int) uint8    { return v.b[8*i+7] }
+func (v c15nv) cptr(i int) int64    { return c15get48(v.b[8*v.a+8+8*i:]) }
+func (v c15nv) stag(i int) uint8    { return v.b[8*v.a+8+8*i+7] }
+func (v c15nv) cptrmax() int64      { return c15get48(v.b[16*v.a+8:]) }
+func (v c15nv) dptrmax() int64      { return c15get48(v.b[8*v.a:]) }
+func (v c15nv) version() uint8      { return v.b[16*v.a+14] }
+func (v c15nv) codecByte() uint8    { return v.b[8*v.a+7] }
+func (v c15nv) dsize(i int) int64   { return v.dptr(i+1) - v.dptr(i) }
 func (v c15nv) isBranch(i int) bool { return v.ttag(i) == 0xFE }
 
 // codecKey identifies the codec (without the mix bit); ok=false when a long
